@@ -649,6 +649,28 @@ def report_perturbation(ctx, r):
     w = {"kind": "perturb", "src": r["src"], "path": r["path"], "cls": r["cls"], "field": r["field"], "k": r["k"], "variant": r.get("variant"),
          "value": r.get("value"), "seed": ctx.seed, "family": r.get("family", "default")}
     feats = perturb_features(r)
+    if st == "diff" and isinstance(r.get("value"), dict) and "donor" in str(r["value"].get("value", "")):
+        # a DONOR element taken from another object of the document carries numbers typed for ITS host (int coefficients of an integer
+        # compu method); in the new host the declared type may be a float type, so the written "0" is read back as 0.0: the same number
+        # under the declared type. Such a tree is not a state any loader produces -- a difference that is only this retyping is not a
+        # loss (round 9: a false alarm of this harness in the thorough tier, see DESIGN.md I.8).
+        def _num(x):
+            import ast
+            try:
+                v = ast.literal_eval(x)
+            except Exception:  # noqa
+                return None
+            if isinstance(v, tuple) and len(v) == 2 and v[0] == "float":
+                try:
+                    return float(v[1])
+                except Exception:  # noqa
+                    return None
+            return float(v) if isinstance(v, (int, float)) and not isinstance(v, bool) else None
+        rest = [d for d in r["diffs"] if not (_num(d["left"]) is not None and _num(d["left"]) == _num(d["right"]))]
+        if not rest:
+            ctx.count("donor_numbers_retyped_by_the_new_host(not a loss)")
+            return
+        r = {**r, "diffs": rest}
     if st == "diff":
         own = [d for d in r["diffs"] if d["field"] == r["field"]] or r["diffs"]
         d = own[0]
